@@ -22,7 +22,7 @@ func (c13) Rule() string {
 func (c13) Assumptions() []string {
 	return []string{"with Order ties the position of the failing runner is not unique; the set of runners that ran must be a prefix of some contract-respecting sequence"}
 }
-func (c13) NumCases(tier string) int      { return tierN(tier, 2000, 40000) }
+func (c13) NumCases(tier string) int      { return tierN(tier, 2000, 500000) }
 func (c13) MinNontrivial(tier string) int { return tierN(tier, 400, 4000) }
 
 func runnerPart(sc *world.Scenario, i int) part {
